@@ -33,8 +33,13 @@ func NewClientWorker(parentLogger logger.Logger, args base.ChunkConsumerArgs, me
 	rq.Header.Add("DD-API-KEY", os.Getenv("DD_API_KEY"))
 
 	worker := &clientWorker{
-		logger:  parentLogger,
-		client:  &http.Client{Timeout: cfg.HTTPTimeout},
+		logger: parentLogger,
+		client: &http.Client{
+			Timeout: cfg.HTTPTimeout,
+			// A redirected POST is re-issued as a GET without the body (301/302/303): the final 2xx would not acknowledge the
+			// chunk. Don't follow redirects, let the 3xx status be reported as the failure it is.
+			CheckRedirect: func(*http.Request, []*http.Request) error { return http.ErrUseLastResponse },
+		},
 		request: rq,
 	}
 
